@@ -471,6 +471,27 @@ class GridMachine(Machine):
             self._ftc(0, "z", a, b)
             self._ftc(1, "pz", a, b)
             self._ftc(2, "pp", a, b)
+        # ---- integer-typed compact coordinates are the same points as their floats
+        ints = (0, 0, 0)
+        intArrays = (np.array([0]), np.array([0]), np.array([-1, 0]))
+        floatArrays = tuple(a.astype(float) for a in intArrays)
+        for meth in ("decompactify", "compactificationDerivatives"):
+            fromInts = getattr(g, meth)(*ints)
+            fromFloats = getattr(g, meth)(0.0, 0.0, 0.0)
+            arrInts = getattr(g, meth)(*intArrays)
+            arrFloats = getattr(g, meth)(*floatArrays)
+            for i, nm in enumerate(("z", "pz", "pp")):
+                pairs = ((fromInts[i], fromFloats[i]), (arrInts[i], arrFloats[i]))
+                for a, b in pairs:
+                    a, b = np.asarray(a, dtype=float), np.asarray(b, dtype=float)
+                    if a.shape != b.shape or not np.allclose(a, b, rtol=1e-12, atol=1e-12 * scale,
+                                                             equal_nan=True):
+                        raise Violation(
+                            "integer-input", f"{meth}:{nm}",
+                            f"{meth} of integer-typed compact coordinates differs from the same "
+                            f"points given as floats in direction {nm}: {a.tolist()} vs "
+                            f"{b.tolist()}", {"params": p})
+        self.ctx.checks["integer_typed_input"] += 1
         # ---- the inverse map offered by the same object undoes the map
         zs = g.decompactify(chi, rz, rp)
         back = g.compactify(*zs)
